@@ -115,6 +115,60 @@ def run_sized(spec, res):
                         res.violation('len-differs-from-iteration', case,
                                       {'len': ln, 'iterated': cnt},
                                       sig={'last_op': dn, 'indexable': False})
+    # ---- n-ary combinators fed with a stage that drops examples: whatever
+    # length the combination offers (most refuse one) must be what it yields
+    combos = {
+        'zip(sized, drop)': lambda a, d: a.zip(d),
+        'zip(drop, sized)': lambda a, d: d.zip(a),
+        'zip(sized, sized, drop)': lambda a, d: a.zip(a, d),
+        'concatenate(sized, drop)': lambda a, d: a.concatenate(d),
+        'concatenate(drop, sized)': lambda a, d: d.concatenate(a),
+        'intersperse(sized, drop)': lambda a, d: a.intersperse(d),
+        'key_zip(sized, drop)': lambda a, d: a.key_zip(d),
+        'key_zip(drop, sized)': lambda a, d: d.key_zip(a),
+        'free _zip(sized, drop)': lambda a, d: ld.core._zip(a, d),
+        'free concatenate([sized, drop])': lambda a, d: ld.concatenate([a, d]),
+    }
+    for n in range(0, 9):
+        for dn in ('catch', 'filter', 'unbatch', 'prefetch1-catch-true',
+                   'prefetcht-catch-class', 'filter-batch'):
+            for cn, comb in combos.items():
+                for wrap in ('none', 'batch', 'map'):
+                    case = {'n': n, 'combination': cn, 'dropping_stage': dn, 'wrap': wrap}
+                    src = {f'k{i}': i for i in range(n)}
+                    try:
+                        a = ld.new(src)
+                        d = ld.new(src)
+                        if 'catch' in dn:
+                            d = d.map(raiser)
+                        d = droppers[dn](d)
+                        if dn == 'filter-batch':
+                            a = a.batch(2)
+                        ds = comb(a, d)
+                        if wrap == 'map':
+                            ds = ds.map(Fn('g'))
+                        elif wrap == 'batch':
+                            ds = ds.batch(2)
+                    except BaseException:
+                        res.count('sized_case_not_offered')
+                        continue
+                    try:
+                        ln = len(ds)
+                    except BaseException:
+                        res.count('length_not_offered')
+                        continue
+                    try:
+                        cnt = sum(1 for _ in ds)
+                    except BaseException:
+                        res.count('sized_case_iteration_refused')
+                        continue
+                    res.case(('combo', n, cn, dn, wrap), n >= 2)
+                    res.count('sized_nonindexable_checked')
+                    res.count('combination_with_dropping_input_sized_checked')
+                    if ln != cnt:
+                        res.violation('len-differs-from-iteration', case,
+                                      {'len': ln, 'iterated': cnt},
+                                      sig={'last_op': cn.split('(')[0], 'indexable': False})
     for n in range(0, 9):
         for backing in ('dict', 'list'):
             for pn, pre in pres.items():
@@ -155,6 +209,19 @@ def judge(prog, status, m, o, res):
     # only compositions the reference documents: an undocumented one that the
     # library happens to accept (e.g. items() of a key-less dataset behind a
     # cache) is not something the statement speaks about
+    if status == 'unsupported' and o is not None and 'iter1' in o:
+        # ... except for the one relation that needs no documentation: a length
+        # that is offered is the number of examples iteration yields
+        it1, ln = o['iter1'], o.get('len')
+        if any(op[0] == 'cycle' for op in prog['ops']) or progengine.is_err(it1) \
+                or it1[1] or ln is None or progengine.is_err(ln):
+            return False
+        res.count('undocumented_but_accepted_len_checked')
+        if ln != len(it1[0]):
+            res.violation('len-differs-from-iteration', {'prog': prog},
+                          {'len': ln, 'iterated': len(it1[0]), 'documented': False},
+                          sig={'last_op': progengine.last_op(prog), 'documented': False})
+        return False
     if status != 'ok' or o is None or 'iter1' not in o:
         return False
     finite = not any(op[0] == 'cycle' for op in prog['ops'])
